@@ -507,8 +507,21 @@ func matchElem(ctx Context, doc bsonkit.Doc, name, path string, v interface{}) e
 		return ErrNotMatched
 	}
 
+	// a query on fields (instead of operators) only applies to elements
+	// that are embedded documents or arrays
+	fieldQuery := len(query[0].Key) == 0 || query[0].Key[0] != '$'
+
 	// match first item
 	for _, item := range array {
+		// skip scalar elements for field queries
+		if fieldQuery {
+			switch item.(type) {
+			case bson.D, bson.A:
+			default:
+				continue
+			}
+		}
+
 		// prepare virtual doc
 		virtual := bson.D{
 			bson.E{Key: "item", Value: item},
